@@ -110,10 +110,18 @@ def expectedMagOps (t : MagTruthQ) : Option (List MOpQ) :=
 
 /-! ### C11 -/
 
-/-- The site test of C11: an atom of the species of atom `i` within `r2` of `y` whose moment is
-within `mr2` of `m'`. -/
+/-- Two-stage exact site search: a site accepted by `sel` within `r2` of `y` that also passes
+`extra`.  The cheap selector is tried first (float-guided, exactly validated); only if the site it
+finds fails `extra` is the search repeated with the conjunction.  `none` iff no site passes all three
+tests (`MagP.findSel2_sound` / `findSel2_complete`). -/
+def findSel2 (ix : SiteIndex) (y : Q3) (sel extra : Nat → Bool) (r2 : Rat) : Option Nat :=
+  match ix.findSel y sel r2 with
+  | none => none
+  | some j => if extra j then some j else ix.findSel y (fun k => sel k && extra k) r2
+
+/-- The site test of C11: an atom of species `sp` within `r2` of `y` whose moment is within `mr2` of `m'`. -/
 def findMagSite (ix : SiteIndex) (mom : Array Q3) (y : Q3) (sp : Int) (m' : Q3) (r2 mr2 : Rat) : Option Nat :=
-  ix.findSel y (fun j => ix.cell.num[j]! == sp && momClose mom[j]! m' mr2) r2
+  findSel2 ix y (fun j => ix.cell.num[j]! == sp) (fun j => momClose mom[j]! m' mr2) r2
 
 def checkC11 (cs : MagCaseQ) (d : MagDatasetQ) : List String :=
   let c := cs.mc.cell
@@ -271,7 +279,7 @@ def checkC13 (cs : MagCaseQ) (d : MagDatasetQ) : List String :=
   -- every std_mag_cell site is the image of an input atom carrying the same (rotated) moment
   let f5 := (List.range S.cell.n).filterMap fun j =>
     let y := (d.stdLinear.apply S.cell.pos[j]!).add d.stdShift
-    if (ixI.findSel y (fun i => c.num[i]! == S.cell.num[j]! && momClose (rotMom cs.mc.mom[i]!) S.mom[j]! mr2) r2).isSome then none
+    if (findSel2 ixI y (fun i => c.num[i]! == S.cell.num[j]!) (fun i => momClose (rotMom cs.mc.mom[i]!) S.mom[j]! mr2) r2).isSome then none
     else if (ixI.find y S.cell.num[j]! r2).isNone then
       some s!"C13[std-onto-pos]: std_mag_cell site {j} is not the image of any input atom"
     else some s!"C13[std-onto-mom]: std_mag_cell site {j} is the image of an input atom with a different moment"
